@@ -793,7 +793,7 @@ theorem fNormOp_spec {L : Layouts} {E : Env} (hkn : NameKeyOK L E) (hkt : TableK
   | find table raise ensure => exact ⟨rfl, hn, ht⟩
   | addTable d norm t cols =>
     obtain ⟨t1, t2⟩ := tableCall_spec hkt F.tables ht ⟨t.parts, t.isStr, d, norm⟩
-    obtain ⟨c1, c2⟩ := normColsC_spec hkn d norm cols F.names hn
+    obtain ⟨c1, c2⟩ := normColsC_spec hkn d norm cols.pairs F.names hn
     simp only [fNormOp, FOp.toOp, normOp, t1, c1]
     exact ⟨trivial, c2, t2⟩
   | columnNames d norm t ov =>
@@ -1052,5 +1052,247 @@ theorem nestedSetCol_refines (d : Nat) (m : Tree) (path : Path) (col : Name) (ty
   cases lookup (flatView (d + 1) m) path with
   | some c => exact flatView_nestedSet d m path _ hs hl
   | none => exact flatView_nestedSet d m path _ hs hl
+
+
+/-! ### the real constructor loop (`_normalize` over the nested raw mapping) refines `ctorFlat` -/
+
+def LookEq (a b : List (Path × Cols)) : Prop := ∀ q, lookup a q = lookup b q
+
+theorem LookEq.dictSet {a b : List (Path × Cols)} (h : LookEq a b) (p : Path) (c : Cols) :
+    LookEq (dictSet a p c) (dictSet b p c) := by
+  intro q; rw [lookup_dictSet, lookup_dictSet, h q]
+
+/-- the flat meaning of one `nested_set(mapping, keys + [col], type)` -/
+def colStep (np : Path) (fm : List (Path × Cols)) (c : Name × String) : List (Path × Cols) :=
+  dictSet fm np (dictSet (match lookup fm np with | some x => x | none => []) c.1 c.2)
+
+theorem colStep_lookEq {a b : List (Path × Cols)} (h : LookEq a b) (np : Path) (c : Name × String) :
+    LookEq (colStep np a c) (colStep np b c) := by
+  unfold colStep; rw [h np]; exact h.dictSet _ _
+
+/-- setting the columns one by one = setting the finished column dict once (when there is a column) -/
+theorem colStep_fold (np : Path) : ∀ (pairs : List (Name × String)) (fm : List (Path × Cols)), pairs ≠ [] →
+    LookEq (pairs.foldl (colStep np) fm)
+      (dictSet fm np (pairs.foldl (fun cs c => dictSet cs c.1 c.2) (match lookup fm np with | some x => x | none => [])))
+  | [], _, h => absurd rfl h
+  | p :: ps, fm, _ => by
+    simp only [List.foldl_cons]
+    cases ps with
+    | nil => intro q; rfl
+    | cons p2 ps2 =>
+      have ih := colStep_fold np (p2 :: ps2) (colStep np fm p) (by simp)
+      intro q
+      rw [ih q]
+      have hl : lookup (colStep np fm p) np = some (dictSet (match lookup fm np with | some x => x | none => []) p.1 p.2) := by
+        unfold colStep; rw [lookup_dictSet]; simp
+      rw [hl]
+      simp only
+      unfold colStep
+      rw [lookup_dictSet, lookup_dictSet, lookup_dictSet]
+      split <;> rfl
+
+theorem flatView_keys_nodup : ∀ (d : Nat) (m : Tree), Shape d m → ((flatView d m).map (·.1)).Nodup
+  | 0, _, ⟨cols, e⟩ => by subst e; simp [flatView]
+  | d + 1, _, ⟨kids, e, hn, hk⟩ => by
+    subst e
+    simp only [flatView, List.map_flatMap, List.map_map, List.Nodup, List.pairwise_flatMap]
+    refine ⟨?_, ?_⟩
+    · intro kv hkv
+      have := flatView_keys_nodup d kv.2 (hk kv hkv)
+      rw [List.Nodup, List.pairwise_map] at this
+      rw [List.pairwise_map]
+      exact this.imp (by intro a b hab e; exact hab (List.cons.inj e).2)
+    · have : List.Pairwise (fun a b : Name × Tree => a.1 ≠ b.1) kids := by
+        have := hn; rw [List.Nodup, List.pairwise_map] at this; exact this
+      refine this.imp ?_
+      intro a b hab x hx y hy e
+      simp only [List.mem_map, Function.comp] at hx hy
+      obtain ⟨x', _, ex⟩ := hx
+      obtain ⟨y', _, ey⟩ := hy
+      rw [← ex, ← ey] at e
+      exact hab (List.cons.inj e).1
+
+theorem normKeysC_spec {L : Layouts} {E : Env} (hk : NameKeyOK L E) : ∀ (keys : List Name) (m : NameCache),
+    NamesInv L E m → (normKeysC E L m keys).2 = normKeys E keys ∧ NamesInv L E (normKeysC E L m keys).1
+  | [], m, hm => ⟨rfl, hm⟩
+  | k :: rest, m, hm => by
+    obtain ⟨h1, h2⟩ := nameCall_spec hk m hm ⟨k, false, E.self, true, true⟩
+    obtain ⟨h3, h4⟩ := normKeysC_spec hk rest _ h2
+    refine ⟨?_, h4⟩
+    simp only [normKeysC, h1, h3, normKeys, List.map_cons]
+
+/-- the inner loop over one table's columns -/
+theorem ctorCols_spec {L : Layouts} {E : Env} (hk : NameKeyOK L E) (n : Nat) (np : Path) (hl : np.length = n + 1) :
+    ∀ (cols : Cols) (names : NameCache) (m : Tree) (fm : List (Path × Cols)), NamesInv L E names →
+    (Uniform (n + 1) m ∨ m = .node []) → LookEq (flatView (n + 1) m) fm →
+    NamesInv L E (ctorCols E L np (names, m) cols).1 ∧
+    (cols ≠ [] → Uniform (n + 1) (ctorCols E L np (names, m) cols).2) ∧
+    (Uniform (n + 1) (ctorCols E L np (names, m) cols).2 ∨ (ctorCols E L np (names, m) cols).2 = .node []) ∧
+    LookEq (flatView (n + 1) (ctorCols E L np (names, m) cols).2) ((normColPairs E cols).foldl (colStep np) fm)
+  | [], names, m, fm, hn, hm, hle => ⟨hn, fun h => absurd rfl h, hm, hle⟩
+  | (c, ty) :: rest, names, m, fm, hn, hm, hle => by
+    obtain ⟨h1, h2⟩ := nameCall_spec hk names hn ⟨c, false, E.self, false, true⟩
+    have hs : Shape (n + 1) m := by
+      rcases hm with h | h
+      · exact h.shape
+      · subst h; exact shape_empty n
+    obtain ⟨_, r2⟩ := nestedSetCol_refines n m np (nameCall E.f L.name names ⟨c, false, E.self, false, true⟩).2 ty hs hl
+    have hu : Uniform (n + 1) (nestedSetCol m np (nameCall E.f L.name names ⟨c, false, E.self, false, true⟩).2 ty) :=
+      uniform_nestedSet n m np _ hm hl
+    have hle' : LookEq (flatView (n + 1) (nestedSetCol m np (nameCall E.f L.name names ⟨c, false, E.self, false, true⟩).2 ty))
+        (colStep np fm (nameCompute E.f ⟨c, false, E.self, false, true⟩, ty)) := by
+      intro q
+      rw [r2 q, h1, hle np, hle q]
+      unfold colStep
+      rw [lookup_dictSet]
+      try (split <;> rfl)
+    obtain ⟨i1, _, i3, i4⟩ := ctorCols_spec hk n np hl rest _ _ _ h2 (Or.inl hu) hle'
+    simp only [ctorCols]
+    refine ⟨i1, fun _ => ?_, i3, ?_⟩
+    · rcases i3 with h | h
+      · exact h
+      · -- the accumulator was uniform (non-empty) and only grows
+        cases rest with
+        | nil => simp only [ctorCols] at h ⊢; exact hu
+        | cons r rs =>
+          exact (ctorCols_spec hk n np hl (r :: rs) _ _ _ h2 (Or.inl hu) hle').2.1 (by simp)
+    · simpa [normColPairs] using i4
+
+
+theorem nestedGet_of_mem (d : Nat) (m : Tree) (hs : Shape d m) (keys : Path) (cols : Cols)
+    (h : (keys, cols) ∈ flatView d m) : nestedGet m keys = .found (.leaf cols) := by
+  rw [nestedGet_flatView d m keys hs (flatView_lengths d m _ h),
+    lookup_of_mem_nodup (flatView_keys_nodup d m hs) h]
+
+/-- one iteration of `for keys in flattened_schema` -/
+theorem ctorTable_spec {L : Layouts} {E : Env} (hk : NameKeyOK L E) (n : Nat) (raw : Tree) (hs : Shape (n + 1) raw)
+    (keys : Path) (cols : Cols) (hmem : (keys, cols) ∈ flatView (n + 1) raw) (hc : cols ≠ [])
+    (names : NameCache) (m : Tree) (fm : List (Path × Cols)) (hn : NamesInv L E names)
+    (hm : Uniform (n + 1) m ∨ m = .node []) (hle : LookEq (flatView (n + 1) m) fm) :
+    ∃ names' m', ctorTable E L raw (names, m) keys = .ok (names', m') ∧ NamesInv L E names' ∧
+      Uniform (n + 1) m' ∧ LookEq (flatView (n + 1) m') (ctorFlatStep E fm (keys, cols)) := by
+  have hg := nestedGet_of_mem (n + 1) raw hs keys cols hmem
+  have hkl : keys.length = n + 1 := flatView_lengths _ _ _ hmem
+  obtain ⟨k1, k2⟩ := normKeysC_spec hk keys names hn
+  have hnl : (normKeysC E L names keys).2.length = n + 1 := by rw [k1]; simp [normKeys, hkl]
+  obtain ⟨c1, c2, _, c4⟩ := ctorCols_spec hk n _ hnl cols _ m fm k2 hm hle
+  refine ⟨_, _, ?_, c1, c2 hc, ?_⟩
+  · unfold ctorTable
+    rw [hg]
+    cases cols with
+    | nil => exact absurd rfl hc
+    | cons c cs => rfl
+  · intro q
+    rw [c4 q, k1]
+    have hp : normColPairs E cols ≠ [] := by simpa [normColPairs] using hc
+    exact colStep_fold (normKeys E keys) (normColPairs E cols) fm hp q
+
+theorem ctorFlatStep_lookEq (E : Env) {a b : List (Path × Cols)} (h : LookEq a b) (kc : List Name × Cols) :
+    LookEq (ctorFlatStep E a kc) (ctorFlatStep E b kc) := by
+  unfold ctorFlatStep; rw [h _]; exact h.dictSet _ _
+
+/-- the whole loop -/
+theorem ctorLoop_spec {L : Layouts} {E : Env} (hk : NameKeyOK L E) (n : Nat) (raw : Tree) (hs : Shape (n + 1) raw) :
+    ∀ (entries : List (Path × Cols)), (∀ kc ∈ entries, kc ∈ flatView (n + 1) raw) → (∀ kc ∈ entries, kc.2 ≠ []) →
+    ∀ (names : NameCache) (m : Tree) (fm : List (Path × Cols)), NamesInv L E names →
+    (Uniform (n + 1) m ∨ m = .node []) → LookEq (flatView (n + 1) m) fm →
+    ∃ names' m', ctorLoop E L raw (names, m) (entries.map (·.1)) = .ok (names', m') ∧ NamesInv L E names' ∧
+      (Uniform (n + 1) m' ∨ m' = .node []) ∧ (entries ≠ [] → Uniform (n + 1) m') ∧
+      LookEq (flatView (n + 1) m') (entries.foldl (ctorFlatStep E) fm)
+  | [], _, _, names, m, fm, hn, hm, hle => ⟨names, m, rfl, hn, hm, fun h => absurd rfl h, hle⟩
+  | (keys, cols) :: rest, hmem, hc, names, m, fm, hn, hm, hle => by
+    obtain ⟨n1, m1, e1, i1, u1, l1⟩ := ctorTable_spec hk n raw hs keys cols (hmem _ (List.mem_cons_self ..))
+      (hc _ (List.mem_cons_self ..)) names m fm hn hm hle
+    obtain ⟨n2, m2, e2, i2, u2, _, l2⟩ := ctorLoop_spec hk n raw hs rest (fun kc h => hmem kc (List.mem_cons_of_mem _ h))
+      (fun kc h => hc kc (List.mem_cons_of_mem _ h)) n1 m1 _ i1 (Or.inl u1) l1
+    refine ⟨n2, m2, ?_, i2, u2, fun _ => ?_, l2⟩
+    · simp only [List.map_cons, ctorLoop, e1, e2]
+    · rcases u2 with h | h
+      · exact h
+      · cases rest with
+        | nil => simp only [List.map_nil, ctorLoop] at e2; cases e2; exact u1
+        | cons r rs =>
+          obtain ⟨_, _, e3, _, _, u3, _⟩ := ctorLoop_spec hk n raw hs (r :: rs)
+            (fun kc h => hmem kc (List.mem_cons_of_mem _ h)) (fun kc h => hc kc (List.mem_cons_of_mem _ h)) n1 m1 _ i1 (Or.inl u1) l1
+          rw [e2] at e3; cases e3; exact u3 (by simp)
+
+theorem ctorFlat_lengths (E : Env) (n : Nat) : ∀ (entries : List (Path × Cols)) (fm : List (Path × Cols)),
+    (∀ kc ∈ entries, kc.1.length = n + 1) → (∀ pc ∈ fm, pc.1.length = n + 1) →
+    ∀ pc ∈ entries.foldl (ctorFlatStep E) fm, pc.1.length = n + 1
+  | [], _, _, hf => hf
+  | kc :: rest, fm, he, hf => by
+    simp only [List.foldl_cons]
+    refine ctorFlat_lengths E n rest _ (fun x h => he x (List.mem_cons_of_mem _ h)) ?_
+    intro pc hpc
+    unfold ctorFlatStep at hpc
+    rcases mem_dictSet hpc with h | h
+    · rw [h]; simp [normKeys, he kc (List.mem_cons_self ..)]
+    · exact hf pc h
+
+theorem foldl_ctorFlatStep_ne_nil (E : Env) : ∀ (entries : List (Path × Cols)) (fm : List (Path × Cols)),
+    (fm ≠ [] ∨ entries ≠ []) → entries.foldl (ctorFlatStep E) fm ≠ []
+  | [], fm, h => by rcases h with h | h; exact h; exact absurd rfl h
+  | kc :: rest, fm, _ => foldl_ctorFlatStep_ne_nil E rest _ (Or.inl (dictSet_ne_nil _ _ _))
+
+/-- two non-empty flat mappings that agree as finite maps (all paths of one length) give equivalent fresh states -/
+theorem fresh_equiv_of_lookEq (n : Nat) {a b : List (Path × Cols)} (h : LookEq a b) (ha : a ≠ []) (hb : b ≠ [])
+    (la : ∀ pc ∈ a, pc.1.length = n + 1) (lb : ∀ pc ∈ b, pc.1.length = n + 1) :
+    Equiv (fresh ⟨a, [], []⟩) (fresh ⟨b, [], []⟩) := by
+  refine ⟨h, ⟨fun x => absurd x ha, fun x => absurd x hb⟩, ?_, ?_, rfl⟩
+  · unfold depth fresh
+    cases a with
+    | nil => exact absurd rfl ha
+    | cons x xs =>
+      cases b with
+      | nil => exact absurd rfl hb
+      | cons y ys =>
+        simp only
+        rw [la x (List.mem_cons_self ..), lb y (List.mem_cons_self ..)]
+  · intro k
+    simp only [fresh, List.mem_map]
+    have key : ∀ p, p ∈ a.map (·.1) ↔ p ∈ b.map (·.1) := by
+      intro p
+      constructor
+      · intro hp
+        exact Classical.byContradiction fun hn =>
+          (lookup_none_iff.mp (by rw [h p]; exact lookup_none_iff.mpr hn)) hp
+      · intro hp
+        exact Classical.byContradiction fun hn =>
+          (lookup_none_iff.mp (by rw [← h p]; exact lookup_none_iff.mpr hn)) hp
+    constructor
+    · rintro ⟨pc, hpc, e⟩
+      obtain ⟨pc', hpc', e'⟩ := List.mem_map.mp ((key pc.1).mp (List.mem_map.mpr ⟨pc, hpc, rfl⟩))
+      exact ⟨pc', hpc', by rw [e', e]⟩
+    · rintro ⟨pc, hpc, e⟩
+      obtain ⟨pc', hpc', e'⟩ := List.mem_map.mp ((key pc.1).mpr (List.mem_map.mpr ⟨pc, hpc, rfl⟩))
+      exact ⟨pc', hpc', by rw [e', e]⟩
+
+/-- **`MappingSchema(raw, normalize=True)`**: the real constructor (flatten, per-table `nested_get`, cached name
+    normalisation, column-by-column `nested_set`, trie and `_depth` built by `AbstractMappingSchema.__init__`)
+    succeeds on a uniform raw mapping whose tables all have a column, yields an admissible state, and that state
+    stands for the fresh flat state over `ctorFlat` -/
+theorem fInit_normalize_spec {L : Layouts} {E : Env} (hk : NameKeyOK L E) (n : Nat) (raw : Tree)
+    (hu : Uniform (n + 1) raw) (hc : ∀ kc ∈ flatView (n + 1) raw, kc.2 ≠ []) :
+    ∃ F, fInit E L raw true = .ok F ∧ CShape F.core (n + 1) ∧ NamesInv L E F.names ∧ F.tables = [] ∧
+      F.core.types = [] ∧
+      Equiv (absC F.core (n + 1)) (fresh ⟨ctorFlat E (flatView (n + 1) raw), [], []⟩) := by
+  have hfl : flatten (dictDepth raw - 1) [] raw = (flatView (n + 1) raw).map (·.1) := by
+    rw [dictDepth_uniform _ _ hu, Nat.add_sub_cancel, flatten_flatView n raw [] hu.shape]
+    simp
+  obtain ⟨p0, c0, r0, e0, _⟩ := flatView_head _ _ hu
+  have hne : flatView (n + 1) raw ≠ [] := by rw [e0]; simp
+  obtain ⟨names', m', e1, i1, _, u1, l1⟩ := ctorLoop_spec hk n raw hu.shape (flatView (n + 1) raw) (fun _ h => h) hc
+    [] (.node []) [] (memoInv_nil _ _) (Or.inr rfl) (by intro q; simp [flatView, lookup])
+  have um := u1 hne
+  obtain ⟨s1, s2⟩ := coreOfMapping_spec n m' um
+  refine ⟨⟨coreOfMapping m', names', []⟩, ?_, s1, i1, rfl, ?_, ?_⟩
+  · simp only [fInit, if_true, hfl, e1]
+  · simp [coreOfMapping, cDepth]; split <;> rfl
+  · refine s2.trans (fresh_equiv_of_lookEq n l1 ?_ ?_ ?_ ?_)
+    · obtain ⟨p, c, r, e, _⟩ := flatView_head _ _ um; rw [e]; simp
+    · exact foldl_ctorFlatStep_ne_nil E _ _ (Or.inr hne)
+    · exact fun pc h => flatView_lengths _ _ _ h
+    · exact ctorFlat_lengths E n _ [] (fun kc h => flatView_lengths _ _ _ h) (by intro pc h; cases h)
+
 
 end SqlglotModel.Schema
